@@ -352,6 +352,18 @@ impl MutableArchive {
                     None
                 }
             } else {
+                // A new name needs a free (never used or deleted) hash slot. Refuse before
+                // anything is modified: the probe below would otherwise never terminate.
+                let has_free_slot = self
+                    .hash_table
+                    .as_ref()
+                    .map(|t| t.entries().iter().any(|e| e.is_empty() || e.is_deleted()))
+                    .unwrap_or(false);
+                if !has_free_slot {
+                    return Err(Error::hash_table(format!(
+                        "Hash table is full, cannot add {archive_name}"
+                    )));
+                }
                 None
             };
 
@@ -1079,8 +1091,13 @@ impl MutableArchive {
         let table_size = hash_table.size() as u32;
         let mut index = table_offset & (table_size - 1);
 
-        // Linear probing to find empty or deleted slot
+        // Linear probing to find empty or deleted slot (at most one pass over the table)
+        let mut probes = 0u32;
         loop {
+            if probes >= table_size {
+                return Err(Error::hash_table("Hash table is full"));
+            }
+            probes += 1;
             let entry = hash_table.get_mut(index as usize).ok_or_else(|| {
                 Error::InvalidFormat("Hash table index out of bounds".to_string())
             })?;
